@@ -553,7 +553,8 @@ def gen_cascade(p):
 
 
 # =========================================================================== LABEL EXPORT
-XT1, XT2, XT3 = ("k1", "v1"), ("k2", "v2"), ("k2", "v3")
+# XT1's key differs from the others' key only in letter case (keys are case sensitive), and its term is NAMED like their key
+XT1, XT2, XT3 = ("K2", "v1"), ("k2", "v2"), ("k2", "v3")
 XPOOL = [XT1, XT2, XT3]
 TAGLISTS = {"none": [], "one": [XT2]}
 for _perm in itertools.permutations(range(3)):
@@ -561,9 +562,9 @@ for _perm in itertools.permutations(range(3)):
 
 
 def xreal(t):
-    if t[0] == "k1":
+    if t[0] == "K2":
         # the term of the k1 tags is NAMED like the other tags' key: selecting 'by key' compares keys (labels), never names
-        return data.Tag(term=data.Term(label="k1", name="k2", definition="named like another key"), value=t[1])
+        return data.Tag(term=data.Term(label="K2", name="k2", definition="named like another key"), value=t[1])
     return data.Tag(term=tk(t[0]), value=t[1])
 
 
@@ -768,6 +769,11 @@ def export_pool(p):
             for f1 in Fq:
                 pool.append(("LineString", [[a, f0], [b, f1]]))
                 pool.append(("MultiPoint", [[a, f0], [b, f1]]))
+    # lines that double back: the time extent is that of all vertices, not of the first and the last one
+    for a, b in strict_pairs(T):
+        m = (a + b) / 2
+        pool.append(("LineString", [[m, Fq[0]], [a, Fq[-1]], [b, Fq[0]]]))
+        pool.append(("LineString", [[a, Fq[0]], [b, Fq[-1]], [m, Fq[0]], [b, Fq[-1]]]))
     for a, b in strict_pairs(T):
         for lo, hi in strict_pairs(Fq):
             pool.append(("Polygon", [[[a, lo], [b, hi], [a, hi]]]))
@@ -801,7 +807,7 @@ LIST_POOL = {
 }
 LIST_KINDS = list(LIST_POOL)
 
-EV_TAGS = [XT1]  # default label "k1:v1"
+EV_TAGS = [XT1]  # default label "K2:v1"
 
 
 def opt_kw(**kw):
@@ -861,7 +867,7 @@ def run_export(case):
             check_segment(out, el, m[1], cls, None)
         else:
             check_box(out, el, m[1], cls, None)
-        out.expect("export_label", el.label == "k1:v1", el.label, "k1:v1", cls)
+        out.expect("export_label", el.label == "K2:v1", el.label, "K2:v1", cls)
     out.nontrivial = m[0] == "reject" or kind != ("TimeInterval" if fn == "segment" else "BoundingBox")
     out.klass = "export:%s:%s:te%s" % (fn, why_of(m), te_cls(te))
     return out
